@@ -327,3 +327,130 @@ func H_c05_hist_dense_q()  { c05Hist(2, 2, false) }
 func H_c05_hist_sparse_q() { c05Hist(2, 2, true) }
 func H_c05_hist_dense_t()  { c05Hist(3, 2, false) }
 func H_c05_hist_sparse_t() { c05Hist(3, 2, true) }
+
+// c05DenseSym: ONE edit from EVERY DenseGraph on n vertices at once: the n(n-1)/2 edge
+// bytes stay symbolic (0/1), the cached degrees and edge count are the matching sums, the
+// edit's arguments are concrete (one path per argument tuple) and every observer of the
+// result is compared, as a formula over the edge bits, with the edited model.  Guarded
+// merging keeps the edge-dependent branches of the library inside one path.
+func c05DenseSym(n int) {
+	bit := make([][]byte, n) // bit[i][j] (i != j) is the symbolic 0/1 edge byte
+	for i := range bit {
+		bit[i] = make([]byte, n)
+	}
+	edges := make([]byte, n*(n-1)/2)
+	for j := 1; j < n; j++ {
+		for i := 0; i < j; i++ {
+			b := rt.Bit("e")
+			edges[j*(j-1)/2+i] = b
+			bit[i][j], bit[j][i] = b, b
+		}
+	}
+	deg := make([]int, n)
+	m := 0
+	for i := 0; i < n; i++ {
+		for j := 0; j < n; j++ {
+			if i != j {
+				deg[i] += int(bit[i][j])
+				if i < j {
+					m += int(bit[i][j])
+				}
+			}
+		}
+	}
+	g := &DenseGraph{NumberOfVertices: n, NumberOfEdges: m, DegreeSequence: deg, Edges: edges}
+	// the model after the edit: want[i][j] as 0/1 bytes over nn vertices
+	nn := n
+	want := make([][]byte, n+1)
+	for i := range want {
+		want[i] = make([]byte, n+1)
+	}
+	for i := 0; i < n; i++ {
+		copy(want[i], bit[i])
+	}
+	what := ""
+	switch rt.Choice("op", 4) {
+	case 0:
+		i, j := rt.Choice("i", n), rt.Choice("j", n)
+		what = "AddEdge"
+		g.AddEdge(i, j)
+		if i != j {
+			want[i][j], want[j][i] = 1, 1
+		}
+	case 1:
+		i, j := rt.Choice("i", n), rt.Choice("j", n)
+		what = "RemoveEdge"
+		g.RemoveEdge(i, j)
+		if i != j {
+			want[i][j], want[j][i] = 0, 0
+		}
+	case 2:
+		v := rt.Choice("v", n)
+		what = "RemoveVertex"
+		g.RemoveVertex(v)
+		nn = n - 1
+		for i := 0; i < n; i++ {
+			for j := 0; j < n; j++ {
+				if i == v || j == v {
+					continue
+				}
+				a, b := i, j
+				if a > v {
+					a--
+				}
+				if b > v {
+					b--
+				}
+				want[a][b] = bit[i][j]
+			}
+		}
+		for i := 0; i < nn; i++ {
+			want[i][i] = 0
+		}
+	default:
+		lists := [][]int{{}, {0}, {n - 1}, {n / 2, 1}, {n - 1, 0, n / 2}}
+		all := make([]int, n)
+		for i := range all {
+			all[i] = n - 1 - i
+		}
+		lists = append(lists, all)
+		nb := lists[rt.Choice("neighbours", len(lists))]
+		what = "AddVertex"
+		g.AddVertex(append([]int{}, nb...))
+		nn = n + 1
+		for _, u := range nb {
+			want[u][n], want[n][u] = 1, 1
+		}
+	}
+	rt.Check(g.N() == nn, "dense "+what+" (symbolic state): N() wrong")
+	if g.N() != nn {
+		return
+	}
+	wm := 0
+	degs := g.Degrees()
+	rt.Check(len(degs) == nn, "dense "+what+" (symbolic state): Degrees() has the wrong length")
+	rt.Check(len(g.Edges) == nn*(nn-1)/2, "dense "+what+" (symbolic state): Edges has the wrong length")
+	if len(degs) != nn || len(g.Edges) != nn*(nn-1)/2 {
+		return
+	}
+	for i := 0; i < nn; i++ {
+		wd := 0
+		for j := 0; j < nn; j++ {
+			if i == j {
+				continue
+			}
+			wd += int(want[i][j])
+			if i < j {
+				wm += int(want[i][j])
+				rt.Check(g.IsEdge(i, j) == (want[i][j] > 0), "dense "+what+" (symbolic state): IsEdge differs from the model")
+				rt.Check(g.IsEdge(j, i) == (want[i][j] > 0), "dense "+what+" (symbolic state): IsEdge is not symmetric")
+			}
+		}
+		rt.Check(degs[i] == wd, "dense "+what+" (symbolic state): Degrees() differs from adjacency")
+	}
+	rt.Check(g.M() == wm, "dense "+what+" (symbolic state): M() differs from the number of edges")
+	rt.Reach("end")
+}
+
+func H_c05_densesym_q() { c05DenseSym(12) }
+func H_c05_densesym_t() { c05DenseSym(24) }
